@@ -360,7 +360,11 @@ func (g *vdb) checkC23(tr *lib.Trace, n *vnode) {
 	}()
 	// select / lookup with selections taken from a row as written, or made to match nothing
 	if (use == ReqOrder || use == ReqGroup || use == ReqUnique) && len(index) > 0 {
-		for range 6 {
+		nsel := 6
+		if len(fixed0) > 0 {
+			nsel = 10 // selections that conflict with fixed values, then ones that do not
+		}
+		for range nsel {
 			srcRow := make(Row, len(hdr0.Fields))
 			if len(rows0) > 0 {
 				srcRow = rows0[r.Intn(len(rows0))]
@@ -454,7 +458,7 @@ func (g *vdb) checkC23(tr *lib.Trace, n *vnode) {
 				}
 				tr.Q("select "+selS+" "+n.toks(&g.ids), got.show(&g.ids))
 				// a join selects again without clearing; clear only sometimes
-				if r.Intn(2) == 0 {
+				if r.Intn(3) == 0 {
 					q.Select(nil)
 					tr.Count("select-cleared-between")
 				}
